@@ -246,6 +246,28 @@ class ExprCanon(ast.NodeTransformer):
                 return _loc(ast.JoinedStr(values=vals), node)
         return node
 
+    def _unroll_comp(self, node):
+        """{K: V for x in ('a', 'b')} / [E for x in ('a', 'b')] over a short literal of constants, no conditions: the
+        display of the substituted elements (the elements are evaluated in the same order)"""
+        if len(node.generators) != 1:
+            return None
+        g = node.generators[0]
+        if g.is_async or g.ifs or not isinstance(g.target, ast.Name) or not isinstance(g.iter, (ast.Tuple, ast.List)) or not (1 <= len(g.iter.elts) <= 24) or not all(isinstance(e, ast.Constant) for e in g.iter.elts):
+            return None
+        parts = node.key, node.value if isinstance(node, ast.DictComp) else None
+        body_nodes = [node.key, node.value] if isinstance(node, ast.DictComp) else [node.elt]
+        if any(isinstance(x, (ast.Lambda, ast.NamedExpr, ast.GeneratorExp, ast.ListComp, ast.SetComp, ast.DictComp)) for b in body_nodes for x in ast.walk(b)):
+            return None
+        rows = []
+        for c in g.iter.elts:
+            m = {g.target.id: c}
+            rows.append([self.visit(ast.fix_missing_locations(_SubstNames(m).visit(copy.deepcopy(b)))) for b in body_nodes])
+        if isinstance(node, ast.DictComp):
+            if not all(isinstance(r[0], ast.Constant) for r in rows) or len({r[0].value for r in rows}) != len(rows):
+                return None
+            return _loc(ast.Dict(keys=[r[0] for r in rows], values=[r[1] for r in rows]), node)
+        return _loc(ast.List(elts=[r[0] for r in rows], ctx=ast.Load()), node)
+
     def visit_JoinedStr(self, node):
         self.generic_visit(node)
         vals = []
@@ -271,6 +293,13 @@ class ExprCanon(ast.NodeTransformer):
             if isinstance(v, ast.Call) and isinstance(v.func, ast.Attribute) and v.func.attr == "split" and len(v.args) == 1 and not v.keywords:
                 call = _loc(ast.Call(func=_loc(ast.Attribute(value=v.func.value, attr="rsplit", ctx=ast.Load()), v.func), args=[v.args[0], _loc(ast.Constant(value=1), v)], keywords=[]), v)
                 node.value = call
+        # {'a': x, 'b': y}['a'] with plain values  ->  x
+        if isinstance(node.ctx, ast.Load) and isinstance(v, ast.Dict) and isinstance(node.slice, ast.Constant) and v.keys and all(k is not None and isinstance(k, ast.Constant) for k in v.keys):
+            hits = [val for k, val in zip(v.keys, v.values) if k.value == node.slice.value and type(k.value) is type(node.slice.value)]
+            def _inert(e):
+                return isinstance(e, (ast.Name, ast.Constant)) or (isinstance(e, ast.Attribute) and _inert(e.value)) or (isinstance(e, ast.Tuple) and all(_inert(x) for x in e.elts))
+            if len(hits) == 1 and all(_inert(val) for val in v.values):
+                return hits[0]
         # (a, b)[0] with plain elements (names, constants, attributes of names)  ->  a
         if isinstance(node.ctx, ast.Load) and isinstance(v, ast.Tuple) and isinstance(node.slice, ast.Constant) and isinstance(node.slice.value, int) and not isinstance(node.slice.value, bool) and 0 <= node.slice.value < len(v.elts):
             def _plain(e):
@@ -412,6 +441,9 @@ class ExprCanon(ast.NodeTransformer):
     def visit_DictComp(self, node):
         self.generic_visit(node)
         node = self._fuse_generators(node)
+        un = self._unroll_comp(node)
+        if un is not None:
+            return un
         # {k: x for k, (x, _) in {<display>}.items()}  ->  the projected display
         if len(node.generators) == 1 and not node.generators[0].ifs:
             g = node.generators[0]
@@ -3028,6 +3060,8 @@ class _MatchToIf(ast.NodeTransformer):
 
 
 def _canonicalise_once(tree):
+    # module level: `X: T = v` is `X = v` (the annotation of a module-level name is not behaviour)
+    tree.body = [(_loc(ast.Assign(targets=[st.target], value=st.value), st) if isinstance(st, ast.AnnAssign) and st.value is not None and isinstance(st.target, ast.Name) else st) for st in tree.body]
     if any(isinstance(n, ast.Match) for n in ast.walk(tree)):
         tree = _MatchToIf().visit(tree)
         ast.fix_missing_locations(tree)
